@@ -25,6 +25,7 @@ func c09(c *Ctx) {
 	c09tree(c)
 	c09search(c)
 	c09dispatch(c)
+	c09options(c)
 }
 
 func strConst(p *px.Path, s *px.Sym) (string, bool) {
@@ -737,4 +738,54 @@ func c09dispatch(c *Ctx) {
 func isBranchOnMethod(e *px.Event, methodP *ssa.Parameter) bool {
 	cnd := e.Cond.Strip(true)
 	return cnd.Kind == px.KBinOp && (isParam(cnd.X, methodP) || isParam(cnd.Y, methodP))
+}
+
+// c09options: route options rebuild the route list instead of editing the caller's routes in place.
+func c09options(c *Ctx) {
+	rule := "C09.R6"
+	f := c.fn(rule, "rest", "WithPrefix")
+	if f == nil {
+		return
+	}
+	cl := c.closure(rule, f, "route option closure", func(a *ssa.Function) bool { return a.Parent() == f })
+	if cl == nil {
+		return
+	}
+	ps := c.paths(rule, cl, px.Config{MaxVisits: 2})
+	rP := cl.Params[0]
+	c.forall(rule, "rest.WithPrefix$option", "the prefixed routes are built into a new slice (path = path.Join(prefix, route path), method and handler kept) that replaces r.routes; the caller's own Route values are not modified (the same route slice may be mounted again)", cl, ps, func(p *px.Path) (bool, string) {
+		if p.Exit == px.ExitCut {
+			return true, ""
+		}
+		for _, e := range p.All(px.KindIs(px.EvStore)) {
+			a := e.Addr
+			for d := 0; d < 4 && a != nil; d++ {
+				if a.Kind == px.KIndexAddr && px.IsFieldLoad(a.X, "routes", func(b *px.Sym) bool { return isParam(b, rP) }) {
+					return false, "a route of the incoming slice is modified in place: the prefix is written into the caller's own routes, so mounting the same slice again (another prefix, or no prefix) registers wrong, duplicated paths"
+				}
+				a = a.X
+			}
+		}
+		if p.Exit == px.ExitReturn {
+			var repl *px.Event
+			for _, e := range p.All(px.KindIs(px.EvStore)) {
+				if px.FieldAddrIs(e.Addr, "routes", func(b *px.Sym) bool { return isParam(b, rP) }) {
+					repl = e
+				}
+			}
+			if repl == nil {
+				return false, "r.routes is not replaced"
+			}
+			for _, j := range p.All(calleeIs("path.Join")) {
+				els := p.SliceElems(j.Call.Args[0])
+				if len(els) != 2 || !fieldLoadDeep(els[1], "Path", nil) {
+					return false, "the new path is not path.Join(prefix, route.Path)"
+				}
+				if g := els[0].Strip(false); !(g.Kind == px.KFreeVar || (g.Kind == px.KLoad && g.X != nil && g.X.Kind == px.KFreeVar)) {
+					return false, "the first component is not the configured prefix"
+				}
+			}
+		}
+		return true, ""
+	})
 }
